@@ -49,6 +49,7 @@ def setup(d):
         RECEIVED.append(dict(custom))
     decls = {
         "none": None,
+        "empty-list": [],  # a generator that declares "no custom arguments at all"
         "all-optional": [GeneratorParam(n.replace("-", "_"), "", mandatory=False) for n in NAMES],
         "x-mandatory": [GeneratorParam("x", "", mandatory=True)],
         "myarg-mandatory-others-optional": [GeneratorParam("my_arg", "", mandatory=True), GeneratorParam("x", "", mandatory=False), GeneratorParam("a_b_c", "", mandatory=False)],
@@ -183,7 +184,7 @@ def run_generate(d, shapes, position, decl_name, decls):
         names = {p.name for p in decl}
         if any(p.mandatory and p.name not in given for p in decl):
             exp_ok = False
-        if given and decl and any(g not in names for g in given):
+        if given and any(g not in names for g in given):
             exp_ok = False
     obs = {"args": [a.replace(d, "<dir>") for a in args], "exit_code": res.exit_code, "received": list(RECEIVED), "expected": given if exp_ok else "exit 1"}
     if res.exception is not None and not isinstance(res.exception, SystemExit):
@@ -229,7 +230,7 @@ def run(ctx):
                 cases.append(("check", seq, mode))
     for shapes in itertools.product(("absent", "valued", "bare"), repeat=3):
         for pos in ("after", "before"):
-            for decl in ("none", "all-optional", "x-mandatory", "myarg-mandatory-others-optional", "only-abc-optional", "x-and-abc-mandatory",
+            for decl in ("none", "empty-list", "all-optional", "x-mandatory", "myarg-mandatory-others-optional", "only-abc-optional", "x-and-abc-mandatory",
                          "any-none", "any-none@b", "any-x-mandatory", "any-x-mandatory@b"):
                 cases.append(("generate", shapes, pos, decl))
     ctx.pmap(work, [cases[i:i + 40] for i in range(0, len(cases), 40)])
